@@ -17,6 +17,10 @@ PKT_ASSUMES = ["sequence numbers are uint64 (op_wf)", "honest-header premise: a 
                "proof verification = membership of (key,value) in the snapshot recorded at the proof height (C08 is about the byte-level verifiers)"]
 
 PROPS = {
+    "C01": {"test": "TestC01", "modelled": PKT_MODELLED, "assumes": PKT_ASSUMES + ["the commitment hash (sha256) is collision-free (premise of C01_recv_authentic)"]},
+    "C03": {"test": "TestC03", "modelled": PKT_MODELLED, "assumes": PKT_ASSUMES + ["the commitment hash (sha256) is collision-free and never empty"]},
+    "C11": {"test": "TestC11", "modelled": PKT_MODELLED, "assumes": PKT_ASSUMES},
+    "C13": {"test": "TestC13", "modelled": PKT_MODELLED, "assumes": PKT_ASSUMES},
     "C02": {"test": "TestC02", "modelled": PKT_MODELLED, "assumes": PKT_ASSUMES},
     "C09": {"test": "TestC09", "modelled": PKT_MODELLED, "assumes": PKT_ASSUMES},
     "C10": {"test": "TestC10", "modelled": PKT_MODELLED, "assumes": PKT_ASSUMES},
